@@ -107,7 +107,9 @@ fn main() {
             std::process::exit(2);
         }
     };
-    let code = match args[1].as_str() {
+    // a panic of the machinery itself (reference model capacity, executor failure, ...) is a machinery
+    // failure (exit 2), never a verdict
+    let code = std::panic::catch_unwind(|| match args[1].as_str() {
         "C01" => c01::run(tier),
         "C02" => c02::run(tier),
         "C03" => c03::run(tier),
@@ -134,6 +136,10 @@ fn main() {
             eprintln!("unknown property {}", other);
             2
         }
-    };
+    })
+    .unwrap_or_else(|_| {
+        eprintln!("MACHINERY-FAILURE: the explorer panicked (see message above)");
+        2
+    });
     std::process::exit(code);
 }
